@@ -55,7 +55,7 @@ def reps(rng, cls, kind, n):
     if kind == 'any':
         return [{'t': 'any', 'v': {'int': 7, 'str': 'c', 'map': {'a': 1}, 'list': [1, 2], 'bool': True}[cls]}]
     if kind == 'env':
-        return [{'t': 'string', 'v': {'set': 'VERIF_ENV_SET', 'unset': 'VERIF_ENV_UNSET', 'emptyname': ''}[cls]}]
+        return [{'t': 'string', 'v': {'set': 'VERIF_ENV_SET', 'setempty': 'VERIF_ENV_EMPTY', 'unset': 'VERIF_ENV_UNSET', 'emptyname': ''}[cls]}]
     if kind == 'path':
         return [{'t': 'string', 'v': {'missing': '/nonexistent/verif/file', 'directory': '/tmp', 'emptypath': ''}[cls]}]
     raise ValueError(kind)
@@ -151,7 +151,8 @@ def law(fn, tag, args, r):
         return None if sep.join(v) == s and all(sep not in p for p in v) else 'got %r' % (v,)
     if tag == 'default-or-env':
         name, dflt = a
-        want = 'value-from-env' if name == 'VERIF_ENV_SET' else dflt
+        # the default stands in only for a variable that is NOT PRESENT; one that is present with an empty value yields that value
+        want = 'value-from-env' if name == 'VERIF_ENV_SET' else '' if name == 'VERIF_ENV_EMPTY' else dflt
         return None if v == want else 'got %r' % v
     if tag == 'bound':
         items, c = a
